@@ -233,4 +233,11 @@ def r4(ctx):
     relabel(ctx, "C16.R4", c01.r9)
 
 
-RULES = [("C16.R1", r1), ("C16.R2", r2), ("C16.R3", r3), ("C16.R4", r4)]
+
+def f1(ctx):
+    """generic same-name parameter forwarding over this property's modules (see shared.generic_forwarding)."""
+    from . import shared as _sh
+    _sh.generic_forwarding(ctx, "C16.F1", _sh.PROPERTY_MODULES["C16"])
+
+
+RULES = [("C16.R1", r1), ("C16.R2", r2), ("C16.R3", r3), ("C16.R4", r4), ("C16.F1", f1)]
